@@ -186,8 +186,13 @@ def rule_c09_reset(prog: Program, col: Collector) -> None:
     gen = ("call", A("generator"), (), ())
     fg = [e for e in ft.of_kind("store") if e.attr == "full_game" and e.obj == SELF]
     ng = [e for e in ft.of_kind("store") if e.attr == "normalized_game" and e.obj == SELF]
-    if not fg or not ng:
+    if not fg and not ng:
         raise AnalysisError(f"{ref.short}: full_game / normalized_game are no longer assigned in reset")
+    if not fg or not ng:
+        col.violation(ref.where(), ref.short, "reset-new-game" if not fg else "reset-copy",
+                      f"reset no longer assigns {'full_game' if not fg else 'normalized_game'}",
+                      "reset draws a new hidden game and shows its normalised copy")
+        return
     col.check(fg[-1].value == gen, ref.where(fg[-1].node), ref.short, "full_game = self.generator() (a NEW hidden game per reset)",
               construct="reset-new-game", necessity="reset draws a new hidden game")
     cp = ("call", ("attr", gen, "copy"), (), ())
